@@ -82,8 +82,48 @@ func argStr(v Value) string {
 	return s.s
 }
 
+// nextVector returns the next item of the concrete vector (vector modes only).
+func (it *Interp) nextVector(name string) (replayItem, bool) {
+	if it.vector == nil {
+		return replayItem{}, false
+	}
+	if it.vectorPos >= len(it.vector) {
+		return replayItem{Name: name}, true
+	}
+	item := it.vector[it.vectorPos]
+	it.vectorPos++
+	if item.Name != name {
+		panic(unsupported(fmt.Sprintf("vector out of step: want %q got %q", name, item.Name)))
+	}
+	return item, true
+}
+
+// pin constrains a fresh symbolic variable to the vector's value. In "pinned" mode the
+// execution stays symbolic (all merging / forking machinery is exercised) but only the
+// vector's path is feasible; in concrete mode the constant itself is returned.
+func (it *Interp) pin(v *Term, val uint64) *Term {
+	var c *Term
+	if v.sort == SBool {
+		c = mkBool(val != 0)
+	} else {
+		c = mkBV(int(v.sort), val)
+	}
+	if !it.pinned {
+		return c
+	}
+	if !it.ex.replaying() {
+		it.ex.solver.Assert(mkEq(v, c))
+	}
+	return v
+}
+
 func (it *Interp) newNondet(name, kind string, sort Sort) *Term {
 	it.impure("nondet")
+	if item, ok := it.nextVector(name); ok {
+		v := mkVar(it.ex.freshName(name), sort)
+		it.ex.nondets = append(it.ex.nondets, nondetRec{Name: name, Kind: kind, term: v})
+		return it.pin(v, uint64(item.Int))
+	}
 	v := mkVar(it.ex.freshName(name), sort)
 	it.ex.nondets = append(it.ex.nondets, nondetRec{Name: name, Kind: kind, term: v})
 	return v
@@ -107,7 +147,12 @@ func registerAPIModels() {
 		name := argStr(args[0])
 		n := int(it.concreteInt(args[1], "verifChoose n"))
 		var j int
-		if v, ok := it.params["fix."+name]; ok {
+		if item, ok := it.nextVector(name); ok {
+			j = int(item.Int)
+			if j < 0 || j >= n {
+				j = 0
+			}
+		} else if v, ok := it.params["fix."+name]; ok {
 			// sharding: this run explores one value of the choice only
 			j, _ = strconv.Atoi(v)
 			if j < 0 || j >= n {
@@ -123,11 +168,20 @@ func registerAPIModels() {
 	apiModels["verifString"] = func(it *Interp, fr *frame, fn *ssa.Function, args []Value) Value {
 		name := argStr(args[0])
 		max := int(it.concreteInt(args[1], "verifString maxLen"))
-		n := it.ex.chooseFree("len:"+name, max+1)
+		item, vec := it.nextVector(name)
+		var n int
+		if vec {
+			n = len(item.Bytes)
+		} else {
+			n = it.ex.chooseFree("len:"+name, max+1)
+		}
 		bs := make([]*Term, n)
 		base := it.ex.freshName(name)
 		for i := range bs {
 			bs[i] = mkVar(fmt.Sprintf("%s_%d", base, i), 8)
+			if vec {
+				bs[i] = it.pin(bs[i], uint64(item.Bytes[i]))
+			}
 		}
 		it.ex.nondets = append(it.ex.nondets, nondetRec{Name: name, Kind: "string", terms: bs})
 		if n == 0 {
@@ -139,10 +193,18 @@ func registerAPIModels() {
 	apiModels["verifStringN"] = func(it *Interp, fr *frame, fn *ssa.Function, args []Value) Value {
 		name := argStr(args[0])
 		n := int(it.concreteInt(args[1], "verifStringN n"))
+		item, vec := it.nextVector(name)
 		bs := make([]*Term, n)
 		base := it.ex.freshName(name)
 		for i := range bs {
 			bs[i] = mkVar(fmt.Sprintf("%s_%d", base, i), 8)
+			if vec {
+				var b uint64
+				if i < len(item.Bytes) {
+					b = uint64(item.Bytes[i])
+				}
+				bs[i] = it.pin(bs[i], b)
+			}
 		}
 		it.ex.nondets = append(it.ex.nondets, nondetRec{Name: name, Kind: "string", terms: bs})
 		if n == 0 {
@@ -153,12 +215,21 @@ func registerAPIModels() {
 	apiModels["verifBytes"] = func(it *Interp, fr *frame, fn *ssa.Function, args []Value) Value {
 		name := argStr(args[0])
 		max := int(it.concreteInt(args[1], "verifBytes maxLen"))
-		n := it.ex.chooseFree("len:"+name, max+1)
+		item, vec := it.nextVector(name)
+		var n int
+		if vec {
+			n = len(item.Bytes)
+		} else {
+			n = it.ex.chooseFree("len:"+name, max+1)
+		}
 		bs := make([]*Term, n)
 		vs := make([]Value, n)
 		base := it.ex.freshName(name)
 		for i := range bs {
 			bs[i] = mkVar(fmt.Sprintf("%s_%d", base, i), 8)
+			if vec {
+				bs[i] = it.pin(bs[i], uint64(item.Bytes[i]))
+			}
 			vs[i] = bs[i]
 		}
 		it.ex.nondets = append(it.ex.nondets, nondetRec{Name: name, Kind: "bytes", terms: bs})
@@ -167,6 +238,14 @@ func registerAPIModels() {
 	// verifAtom(name) string : a string known only up to ==, < (order-type abstraction)
 	apiModels["verifAtom"] = func(it *Interp, fr *frame, fn *ssa.Function, args []Value) Value {
 		name := argStr(args[0])
+		if item, ok := it.nextVector(name); ok {
+			b := make([]byte, len(item.Bytes))
+			for i, x := range item.Bytes {
+				b[i] = byte(x)
+			}
+			it.ex.nondets = append(it.ex.nondets, nondetRec{Name: name, Kind: "string", terms: []*Term{}})
+			return mkStr(string(b))
+		}
 		r := it.newNondet(name, "atom", rankBits)
 		return Str{atom: r, aname: name}
 	}
